@@ -39,7 +39,7 @@ def main():
         res['confirmed'] = (res['suite_with_change_passed_failed'] == '45 0' and res['demo_with_change_exit'] != 0 and res['demo_without_change_exit'] == 0)
         return res
     finally:
-        d = '/verif/seeded/agent-' + pid
+        d = '/verif/seeded/' + os.environ.get('SEED_PREFIX', 'agent-') + pid
         os.makedirs(d, exist_ok=True)
         for f in ['patch.diff', 'meta.json']:
             if os.path.exists(os.path.join(awt, '_seeded', f)):
